@@ -3,7 +3,12 @@ against the canonical rendering and the recomputed filters, plus the three repai
 counterexamples (sensitivity)."""
 from __future__ import annotations
 
-from vlib import common, tlc
+import datetime
+import json
+import multiprocessing as mp
+from typing import Any
+
+from vlib import common, tlc, tree
 
 INVS = ['DocOK', 'ViewsOK', 'NoDup']
 ALL = '{"NegIndex", "RevSlice", "BatchAt0"}'
@@ -23,7 +28,7 @@ def run(rep: common.Reporter, tier: str) -> dict:
         runs.append(('depth3-reduced', consts(3, '{1}', '{-1,0}', '{NoneV}', 1)))
     out = {'states': 0, 'transitions': 0, 'runs': [], 'behaviours': 0}
     for name, c in runs:
-        r = tlc.run('RepImpl', c, invariants=INVS, timeout=3000)
+        r = tlc.run('RepImpl', c, invariants=INVS, view='DesignView', timeout=3000)
         out['runs'].append({'config': name, 'distinct': r.distinct, 'generated': r.generated, 'ok': r.ok, 'wall_s': round(r.wall_s, 1)})
         out['states'] += r.distinct
         out['transitions'] += r.generated
@@ -32,9 +37,164 @@ def run(rep: common.Reporter, tier: str) -> dict:
     sens = {}
     for dev in ('NegIndex', 'RevSlice', 'BatchAt0'):
         fixes = '{' + ', '.join(f'"{d}"' for d in ('NegIndex', 'RevSlice', 'BatchAt0') if d != dev) + '}'
-        r = tlc.run('RepImpl', consts(1, '0..2', '-3..3', '{NoneV, 1}', 2, fixes), invariants=INVS, timeout=600)
+        r = tlc.run('RepImpl', consts(1, '0..2', '-3..3', '{NoneV, 1}', 2, fixes), invariants=INVS, view='DesignView', timeout=600)
         sens[f'without_{dev}'] = r.violated
         if r.ok:
             rep.machinery_error(f'sensitivity: RepImpl without the {dev} repair was not rejected by TLC')
     out['sensitivity'] = sens
     return out
+
+
+# ---------------------------------------------------------------------------------------------------------
+# Binding: RepImpl behaviours replayed on the real wrappers.  Spec variable -> code:
+#   items   -> list(File.raw_directives_with_comments)            (identity and type of every element)
+#   rawIdx  -> RepeatedFilteredNodeWrapper._raw_indexes of every registered view (private; read if present)
+#   and, through the public API only, list(view) of every registered view = the type filter of the raw list.
+D = datetime.date(2000, 1, 1)
+VIEW_TYPES = {'va': ('A',), 'vb': ('B',), 'vall': ('A', 'B')}
+
+
+def _sl(t: list) -> slice:
+    return slice(*[None if x == 99 else x for x in t])       # PySeq!NoneV
+
+
+def replay_one(beh: list[dict], lf: int) -> list[tuple[str, str]]:
+    common.import_repo()
+    from autobean_refactor import models
+    from autobean_refactor.models import internal
+    from checks import store_replay
+    store_replay.set_load_factor(lf)
+    cls = {'A': models.Open, 'B': models.Close}
+
+    def make(ty: str, k: int) -> Any:
+        return cls[ty].from_value(D, f'Assets:{ty}{k}')
+
+    init = beh[0]
+    text = '\n'.join(f'2000-01-01 {"open" if ty == "A" else "close"} Assets:{ty}{k}' for k, ty in init['items'])
+    f = tree.parse(text + ('\n' if text else ''))
+    raw = f.raw_directives_with_comments
+    objs = {k: o for (k, ty), o in zip(init['items'], list(raw))}
+    ids = {id(o): k for k, o in objs.items()}
+    if len(objs) != len(init['items']):
+        raise RuntimeError('initial document does not have the expected directives')
+    views: dict[str, Any] = {}
+    out: list[tuple[str, str]] = []
+    for step, ev in enumerate(beh[1:], 1):
+        op, a = ev['op'], ev['args']
+        known = set(ids.values())
+        new = sorted((k, ty) for k, ty in ev['items'] if k not in known)      # NewItems(b): ids in batch order
+        batch = [make(ty, k) for k, ty in new]
+        try:
+            with common.guard():
+                if op == 'register':
+                    views[a['v']] = internal.RepeatedFilteredNodeWrapper(raw, tuple(cls[t] for t in VIEW_TYPES[a['v']]))
+                elif op == 'insert':
+                    raw.insert(a['i'], batch[0])
+                elif op == 'extend':
+                    raw.extend(batch)
+                elif op == 'setitem':
+                    raw[a['i']] = batch[0]
+                elif op == 'setslice':
+                    raw[_sl(a['sl'])] = batch
+                elif op == 'pop':
+                    raw.pop(a['i'])
+                elif op == 'clear':
+                    raw.clear()
+                elif op == 'dropmany':
+                    raw.drop_many(list(a['s']))
+                else:
+                    raise RuntimeError(op)
+        except common.Runaway:
+            raise
+        except Exception as e:  # noqa: BLE001
+            out.append((f'repimpl/{op}/exc', f'step {step} {op} {a}: {type(e).__name__}: {e}'))
+            break
+        for (k, ty), o in zip(new, batch):
+            objs[k] = o
+            ids[id(o)] = k
+        real = list(raw)
+        got = [(ids.get(id(o), '?'), 'A' if isinstance(o, models.Open) else 'B' if isinstance(o, models.Close) else '?') for o in real]
+        want = [tuple(x) for x in ev['items']]
+        if got != want:
+            out.append((f'repimpl/{op}/items', f'step {step} {op} {a}: raw list is {got}, specification {want}'))
+            break
+        bad = False
+        idx = ev['idx'] if isinstance(ev['idx'], dict) else {}
+        for v, w in views.items():
+            spec_idx = list(idx.get(v, []))
+            exp = [real[i] for i in spec_idx] if all(0 <= i < len(real) for i in spec_idx) else None
+            lst = list(w)
+            filt = [o for o in real if isinstance(o, tuple(cls[t] for t in VIEW_TYPES[v]))]
+            if len(lst) != len(filt) or any(x is not y for x, y in zip(lst, filt)):
+                out.append((f'repimpl/{op}/view', f'step {step} {op} {a}: view {v} shows {[ids.get(id(o)) for o in lst]}, '
+                                                  f'the raw list filtered is {[ids.get(id(o)) for o in filt]}'))
+                bad = True
+            ri = getattr(w, '_raw_indexes', None)
+            if ri is not None and list(ri) != spec_idx:
+                out.append((f'repimpl/{op}/rawidx', f'step {step} {op} {a}: {v}._raw_indexes = {list(ri)}, specification rawIdx = {spec_idx}'))
+                bad = True
+        if bad:
+            break
+    store_replay.set_load_factor(1000)
+    return out
+
+
+def _bind_chunk(items: list) -> tuple[int, list]:
+    out = []
+    steps = 0
+    for k, s in items:
+        beh = json.loads(s)
+        steps += len(beh) - 1
+        for fp, msg in replay_one(beh, [1000, 2, 3, 4][k % 4]):
+            out.append((fp, msg, beh))
+    return steps, out
+
+
+def bind(rep: common.Reporter, tier: str) -> dict:
+    plans = [('depth1', consts(1, '0..3', '-4..4', '{NoneV, 2, -1}', 2))]
+    if tier == 'quick':
+        plans.append(('depth2-reduced', consts(2, '{2}', '{-1,1}', '{NoneV}', 1)))
+    else:
+        plans.append(('depth2', consts(2, '{0,2,3}', '{-2,-1,0,1}', '{NoneV, 2, -1}', 1)))
+        plans.append(('depth3-reduced', consts(3, '{2}', '{-1,0}', '{NoneV}', 1)))
+    res = {'states': 0, 'transitions': 0, 'behaviours': 0, 'steps': 0, 'runs': []}
+    with mp.Pool(16) as pool:
+        for name, c in plans:
+            behs: list[str] = []
+            r = tlc.run('RepImpl', c, invariants=INVS, constraints=['RegCanon', 'Emit'], on_print=lambda p: behs.append(p[1]), timeout=3000)
+            if not r.ok:
+                rep.machinery_error(f'RepImpl behaviour run {name} failed: {r.violated}\n{r.tail[-800:]}')
+                continue
+            behs = sorted(set(behs))
+            res['states'] += r.distinct
+            res['transitions'] += r.generated
+            res['behaviours'] += len(behs)
+            res['runs'].append({'config': name, 'behaviours': len(behs), 'tlc_states': r.distinct, 'wall_s': round(r.wall_s, 1)})
+            for st, out in common.gmap(pool, rep, _bind_chunk, list(common.chunked(list(enumerate(behs)), 400))):
+                res['steps'] += st
+                for fp, msg, beh in out:
+                    rep.violation(fp, {'what': msg, 'behaviour': beh})
+    # sensitivity: the unrepaired index arithmetic, put back into the real handler, must be caught
+    res['sensitivity'] = _sensitivity(rep)
+    return res
+
+
+def _sensitivity(rep: common.Reporter) -> dict:
+    common.import_repo()
+    from autobean_refactor.models.internal import value_properties as vp
+    orig = vp._RepeatedValueWrapperUpdateHandler.handle_splice
+
+    def broken(self, l, r, values):  # noqa: ANN001, E741
+        return orig(self, l, r + 1 if r > l else r, values)       # an off-by-one in the notified range
+    vp._RepeatedValueWrapperUpdateHandler.handle_splice = broken
+    try:
+        beh = [{'op': 'init', 'args': {}, 'items': [[1, 'A'], [2, 'B'], [3, 'A']], 'idx': [], 'reg': {}, 'doc': []},
+               {'op': 'register', 'args': {'v': 'va'}, 'items': [[1, 'A'], [2, 'B'], [3, 'A']], 'idx': {'va': [0, 2]}},
+               {'op': 'pop', 'args': {'i': 0}, 'items': [[2, 'B'], [3, 'A']], 'idx': {'va': [1]}}]
+        f = replay_one(beh, 1000)
+    finally:
+        vp._RepeatedValueWrapperUpdateHandler.handle_splice = orig
+    ok = replay_one(beh, 1000)
+    if not f or ok:
+        rep.machinery_error(f'sensitivity: RepImpl binding: mutant findings {f}, clean findings {ok}')
+    return {'off_by_one_in_handle_splice_caught': bool(f), 'clean_replay_findings': len(ok)}
